@@ -234,9 +234,28 @@ def safe_division_symbolic(R):
         def __mul__(self, o): return ZA(self.z * zof(o), 'float64')
         __rmul__ = __mul__
 
+    def _zabs(z):
+        e = to_z3(z)
+        return Z(z3.If(e >= 0, e, -e))
+    for _cls in (ZF, ZI, ZA):
+        _cls.__gt__ = lambda self, o: self.z > zof(o)
+        _cls.__ge__ = lambda self, o: self.z >= zof(o)
+        _cls.__lt__ = lambda self, o: self.z < zof(o)
+        _cls.__le__ = lambda self, o: self.z <= zof(o)
+    ZF.__abs__ = lambda self: ZF(_zabs(self.z))
+    ZI.__abs__ = lambda self: ZI(_zabs(self.z))
+    ZA.__abs__ = lambda self: ZA(_zabs(self.z), self.kind)
+
     class NPd:
         ndarray, int32, int64, float32, float64 = np.ndarray, np.int32, np.int64, np.float32, np.float64
         errstate = np.errstate
+
+        def __getattr__(self, n):            # constants and helpers that do not touch array values (finfo, dtype, ...)
+            return getattr(np, n)
+
+        def abs(self, a): return abs(a) if hasattr(a, 'z') else Z(z3.If(to_z3(a) >= 0, to_z3(a), -to_z3(a))) if isinstance(a, Z) else np.abs(a)
+        absolute = abs
+        fabs = abs
         def where(self, c, x, y): return Z(z3.If(to_z3(c), to_z3(zof(x), real=True), to_z3(zof(y), real=True)))
         def zeros_like(self, a): return Z(z3.RealVal(0))
     g = dict(M.__dict__)
